@@ -66,6 +66,10 @@ def cases(tier, seed):
             out.append({'k': 'seq', 'fc': fc, 'fp': fp, 'win': win})
     for win in ['arg-past', 'arg-future']:
         out.append({'k': 'seq', 'fc': '-1', 'fp': '0', 'win': win})
+    # the service keeps sending configurations: a tracepoint that is part of every one of them stays installed, its budget goes on
+    for fc in ('1', '2'):
+        for kinds in ('snapshot', 'log', 'metric+span'):
+            out.append({'k': 'updates', 'fc': fc, 'kinds': kinds, 'depth': 4 if tier == 'quick' else 6})
     for n in (2, 3):
         for fc in ('1', '2'):
             for fp in ('0', '1000'):
@@ -129,7 +133,112 @@ def make_trigger(desc):
                    [LocationAction('tp', 'ok(c)', cfg, LocationAction.ActionType.Snapshot)])
 
 
+UPD_OPS = ['hit', 'same', 'plus-other', 'minus-other', 'changed', 'remove', 'add-back']
+
+
+def case_updates(ctx, desc):
+    """All histories (to the depth bound) of hits and poll responses over one tracepoint A: the response repeats A unchanged (alone, or
+    next to another tracepoint that comes and goes), changes A's arguments, removes A, brings it back. Reference: A's fire count
+    goes on as long as every response contains A unchanged; a changed or re-added A is a new installation."""
+    from deep.grpc import convert_response
+    from deep.config import ConfigService
+    from deep.config.tracepoint_config import TracepointConfigService
+    from deep.processor.trigger_handler import TriggerHandler
+    from deepproto.proto.tracepoint.v1.tracepoint_pb2 import TracePointConfig as PB, Metric, MetricType
+    import itertools
+    ns, path = prog()
+    fc = int(desc['fc'])
+    base = {'fire_count': desc['fc'], 'fire_period': '0'}
+    if desc['kinds'] == 'log':
+        base.update(log_msg='A', snapshot='no_collect')
+    elif desc['kinds'] == 'metric+span':
+        base.update(span='line', snapshot='no_collect')
+
+    class Inline:
+        def submit_task(self, task, *args):
+            from concurrent.futures import Future
+            f = Future()
+            f.set_result(task(*args))
+            return f
+
+    def pb_a(version):
+        args = dict(base)
+        if version:
+            args['fire_period'] = '0' if version % 2 == 0 else '00'      # a different argument text: a different tracepoint configuration
+            args['rev'] = str(version)
+        m = [Metric(name='m', type=MetricType.COUNTER)] if desc['kinds'] == 'metric+span' else []
+        return PB(ID='A', path='c04prog.py', line_number=LINE, args=args, metrics=m)
+    other = PB(ID='B', path='c04prog.py', line_number=LINE + 1, args={'fire_count': '-1', 'fire_period': '0', 'log_msg': 'B', 'snapshot': 'no_collect'})
+
+    for hist in itertools.product(range(len(UPD_OPS)), repeat=desc['depth']):
+        ops = [UPD_OPS[i] for i in hist]
+        if 'hit' not in ops:
+            continue
+        j = rig.Journal()
+        plugins = [rig.RecLogger(j), rig.RecSpanProcessor(j), rig.RecMetric(j)]
+        tps = TracepointConfigService()
+        cfg = ConfigService({'APP_ROOT': '/x'}, tracepoints=tps)
+        cfg.plugins = plugins
+        from deep.api.resource import Resource
+        cfg.resource = Resource({'service.name': 'v'})
+        tps.set_task_handler(Inline())
+        push = rig.CapturePush()
+        handler = TriggerHandler(cfg, push)
+        # model
+        present, version, has_other, count = True, 0, False, 0
+        nresp = 1
+        tps.update_new_config(1, 'h1', convert_response([pb_a(0)]))
+        ctx.case()
+        fired_total = 0
+        bad = None
+        with rig.VirtualClock() as clock:
+            for n, op in enumerate(ops):
+                if op == 'hit':
+                    before = len(push.pushed) + len([e for e in j.events if e[0] in ('log', 'metric', 'span_open') and 'B' not in str(e[2:4])])
+                    clock.advance(5 * MS)
+                    run = Forwarder({path}, handler).call(ns['target'], [True], lambda: None)
+                    after = len(push.pushed) + len([e for e in j.events if e[0] in ('log', 'metric', 'span_open') and 'B' not in str(e[2:4])])
+                    want = present and (fc < 0 or count < fc)
+                    if want:
+                        count += 1
+                    got = after > before
+                    if got != want:
+                        bad = (n, want, got)
+                        break
+                    continue
+                if op == 'same':
+                    pass
+                elif op == 'plus-other':
+                    has_other = True
+                elif op == 'minus-other':
+                    has_other = False
+                elif op == 'changed':
+                    version += 1
+                    count = 0
+                elif op == 'remove':
+                    present = False
+                    count = 0
+                elif op == 'add-back':
+                    if not present:
+                        count = 0
+                    present = True
+                nresp += 1
+                lst = ([pb_a(version)] if present else []) + ([other] if has_other else [])
+                tps.update_new_config(nresp, 'h%d' % nresp, convert_response(lst))
+        if any(o != 'hit' for o in ops[:ops.index('hit') + 1][:-1]) or ops.count('hit') > fc:
+            ctx.nt((desc['fc'], desc['kinds'], tuple(hist)))
+        ctx.outcome((desc['kinds'], count))
+        if bad is not None:
+            n, want, got = bad
+            key = 'fired-again-after-update' if got and not want else 'did-not-fire-after-update'
+            ctx.violation(f'C04/across-updates/{key}/{desc["kinds"]}', f'fire_count={fc}, history {ops}: at step {n} (a hit) the reference says {"fire" if want else "no fire"} '
+                          f'(A unchanged in every response since its last (re)installation, {count} fires so far), the agent {"fired" if got else "did not fire"}', dict(desc, hist=list(hist)))
+            return
+
+
 def run_case(ctx, desc):
+    if desc['k'] == 'updates':
+        return case_updates(ctx, desc)
     if desc['k'] == 'seq':
         return case_seq(ctx, desc)
     return case_conc(ctx, desc)
